@@ -1,6 +1,10 @@
 package interp
 
-// Scratch prototype: symbolic values + DART-style path exploration by re-execution.
+// Symbolic scalar values and the SMT solver pipe.
+//
+// A symv is an SMT-LIB2 term of sort Bool ('B'), String ('S') or Int ('I').
+// All other interpreter values stay concrete (KLEE/DART style: concrete heap,
+// symbolic scalars).
 
 import (
 	"bufio"
@@ -15,6 +19,13 @@ import (
 
 type symv struct {
 	sort byte // 'B', 'S', 'I'
+	term string
+}
+
+// symbytes is the []byte view of a symbolic string (result of []byte(s) or of
+// json.Marshal). Only conversions back to string, len, equality and the JSON /
+// hash intrinsics understand it; any other use is an engine "unsupported".
+type symbytes struct {
 	term string
 }
 
@@ -34,10 +45,22 @@ func smtStr(s string) string {
 	return b.String()
 }
 
+func smtInt(n int64) string {
+	if n < 0 {
+		if n == -9223372036854775808 {
+			return "(- 9223372036854775808)"
+		}
+		return fmt.Sprintf("(- %d)", -n)
+	}
+	return strconv.FormatInt(n, 10)
+}
+
 func termOf(v value) (string, byte, bool) {
 	switch x := v.(type) {
 	case symv:
 		return x.term, x.sort, true
+	case symbytes:
+		return x.term, 'S', true
 	case string:
 		return smtStr(x), 'S', true
 	case bool:
@@ -45,168 +68,121 @@ func termOf(v value) (string, byte, bool) {
 			return "true", 'B', true
 		}
 		return "false", 'B', true
-	case int, int8, int16, int32, int64, uint, uint8, uint16, uint32, uint64:
-		n := asInt64(x)
-		if n < 0 {
-			return fmt.Sprintf("(- %d)", -n), 'I', true
-		}
-		return strconv.FormatInt(n, 10), 'I', true
+	case int, int8, int16, int32, int64:
+		return smtInt(asInt64(x)), 'I', true
+	case uint, uint8, uint16, uint32, uintptr:
+		return strconv.FormatUint(asUint64(x), 10), 'I', true
+	case uint64:
+		return strconv.FormatUint(x, 10), 'I', true
 	}
 	return "", 0, false
 }
 
-func isSym(v value) bool { _, ok := v.(symv); return ok }
-
-// ---- solver ----
-
-type Solver struct {
-	cmd   *exec.Cmd
-	in    io.WriteCloser
-	out   *bufio.Reader
-	Calls int
-	Time  time.Duration
-}
-
-func NewSolver(argv ...string) *Solver {
-	cmd := exec.Command(argv[0], argv[1:]...)
-	in, _ := cmd.StdinPipe()
-	out, _ := cmd.StdoutPipe()
-	if err := cmd.Start(); err != nil {
-		panic(err)
-	}
-	s := &Solver{cmd: cmd, in: in, out: bufio.NewReader(out)}
-	s.send("(set-logic ALL)")
-	return s
-}
-
-func (s *Solver) send(l string) { io.WriteString(s.in, l+"\n") }
-
-func (s *Solver) Check(decls []string, asserts []string) string {
-	t0 := time.Now()
-	s.send("(push 1)")
-	for _, d := range decls {
-		s.send(d)
-	}
-	for _, a := range asserts {
-		s.send("(assert " + a + ")")
-	}
-	s.send("(check-sat)")
-	line, _ := s.out.ReadString('\n')
-	s.send("(pop 1)")
-	s.Calls++
-	s.Time += time.Since(t0)
-	return strings.TrimSpace(line)
-}
-
-// ---- explorer ----
-
-type Explorer struct {
-	S        *Solver
-	prefix   []bool
-	pos      int
-	pc       []string
-	decls    []string
-	nsym     int
-	Work     [][]bool
-	Paths    int
-	Viol     []string
-	Branches int
-}
-
-var EX *Explorer
-
-type pathAbort struct{ why string }
-
-func (e *Explorer) fresh(sort byte, tag string) symv {
-	e.nsym++
-	name := fmt.Sprintf("%s_%d", tag, e.nsym)
-	ss := map[byte]string{'B': "Bool", 'S': "String", 'I': "Int"}[sort]
-	e.decls = append(e.decls, fmt.Sprintf("(declare-const %s %s)", name, ss))
-	return symv{sort, name}
-}
-
-func (e *Explorer) branch(c value) bool {
-	switch x := c.(type) {
-	case bool:
-		return x
-	case symv:
-		e.Branches++
-		if e.pos < len(e.prefix) {
-			d := e.prefix[e.pos]
-			e.pos++
-			if d {
-				e.pc = append(e.pc, x.term)
-			} else {
-				e.pc = append(e.pc, "(not "+x.term+")")
-			}
-			return d
-		}
-		canT := e.S.Check(e.decls, append(append([]string{}, e.pc...), x.term)) != "unsat"
-		canF := e.S.Check(e.decls, append(append([]string{}, e.pc...), "(not "+x.term+")")) != "unsat"
-		if !canT && !canF {
-			panic(pathAbort{"infeasible"})
-		}
-		d := canT
-		if canT && canF {
-			alt := append(append([]bool{}, e.prefix...), false)
-			e.Work = append(e.Work, alt)
-		}
-		e.prefix = append(e.prefix, d)
-		e.pos++
-		if d {
-			e.pc = append(e.pc, x.term)
-		} else {
-			e.pc = append(e.pc, "(not "+x.term+")")
-		}
-		return d
-	}
-	panic(fmt.Sprintf("branch on %T", c))
-}
-
-func (e *Explorer) assume(c value) {
-	if !e.branchOnly(c, true) {
-		panic(pathAbort{"assume false"})
-	}
-}
-
-func (e *Explorer) branchOnly(c value, want bool) bool {
-	switch x := c.(type) {
-	case bool:
-		return x == want
-	case symv:
-		t := x.term
-		if !want {
-			t = "(not " + t + ")"
-		}
-		if e.S.Check(e.decls, append(append([]string{}, e.pc...), t)) == "unsat" {
-			return false
-		}
-		e.pc = append(e.pc, t)
+func isSym(v value) bool {
+	switch v.(type) {
+	case symv, symbytes:
 		return true
 	}
-	panic("assume")
+	return false
 }
 
-func (e *Explorer) assert(c value, msg string) {
-	switch x := c.(type) {
-	case bool:
-		if !x {
-			e.Viol = append(e.Viol, msg+" (concrete)")
-		}
-	case symv:
-		r := e.S.Check(e.decls, append(append([]string{}, e.pc...), "(not "+x.term+")"))
-		if r != "unsat" {
-			e.Viol = append(e.Viol, msg+" ["+r+"] pc="+strings.Join(e.pc, " & "))
-		}
-		e.pc = append(e.pc, x.term)
+func mkBool(t string) value {
+	switch t {
+	case "true":
+		return true
+	case "false":
+		return false
 	}
+	return symv{'B', t}
 }
 
-// eqv: sym-aware equality for basic values; falls back to equals.
+func andv(a, b value) value {
+	if ab, ok := a.(bool); ok {
+		if !ab {
+			return false
+		}
+		return b
+	}
+	if bb, ok := b.(bool); ok {
+		if !bb {
+			return false
+		}
+		return a
+	}
+	return symv{'B', "(and " + a.(symv).term + " " + b.(symv).term + ")"}
+}
+
+func orv(a, b value) value {
+	if ab, ok := a.(bool); ok {
+		if ab {
+			return true
+		}
+		return b
+	}
+	if bb, ok := b.(bool); ok {
+		if bb {
+			return true
+		}
+		return a
+	}
+	return symv{'B', "(or " + a.(symv).term + " " + b.(symv).term + ")"}
+}
+
+func notv(a value) value {
+	if ab, ok := a.(bool); ok {
+		return !ab
+	}
+	t := a.(symv).term
+	if strings.HasPrefix(t, "(not ") && balanced(t[5:len(t)-1]) {
+		return symv{'B', t[5 : len(t)-1]}
+	}
+	return symv{'B', "(not " + t + ")"}
+}
+
+func balanced(s string) bool {
+	d := 0
+	inStr := false
+	for i := 0; i < len(s); i++ {
+		c := s[i]
+		if inStr {
+			if c == '"' {
+				inStr = false
+			}
+			continue
+		}
+		switch c {
+		case '"':
+			inStr = true
+		case '(':
+			d++
+		case ')':
+			d--
+			if d < 0 {
+				return false
+			}
+			if d == 0 && i != len(s)-1 {
+				return false
+			}
+		case ' ':
+			if d == 0 {
+				return false
+			}
+		}
+	}
+	return d == 0 && !inStr
+}
+
+// eqv: sym-aware equality; falls back to the interpreter's equals.
 func eqv(t types.Type, x, y value) value {
 	if isSym(x) || isSym(y) {
-		tx, _, _ := termOf(x)
-		ty, _, _ := termOf(y)
+		tx, sx, okx := termOf(x)
+		ty, sy, oky := termOf(y)
+		if !okx || !oky || sx != sy {
+			panic(engineUnsupported{fmt.Sprintf("eqv on %T / %T", x, y)})
+		}
+		if tx == ty {
+			return true
+		}
 		return symv{'B', "(= " + tx + " " + ty + ")"}
 	}
 	switch xx := x.(type) {
@@ -228,31 +204,284 @@ func eqv(t types.Type, x, y value) value {
 				continue
 			}
 			acc = andv(acc, eqv(st.Field(i).Type(), xx[i], yy[i]))
+			if acc == false {
+				return false
+			}
+		}
+		return acc
+	case array:
+		yy := y.(array)
+		et := t.Underlying().(*types.Array).Elem()
+		var acc value = true
+		for i := range xx {
+			acc = andv(acc, eqv(et, xx[i], yy[i]))
+			if acc == false {
+				return false
+			}
 		}
 		return acc
 	}
 	return equals(t, x, y)
 }
 
-func andv(a, b value) value {
-	if ab, ok := a.(bool); ok {
-		if !ab {
-			return false
-		}
-		return b
-	}
-	if bb, ok := b.(bool); ok {
-		if !bb {
-			return false
-		}
-		return a
-	}
-	return symv{'B', "(and " + a.(symv).term + " " + b.(symv).term + ")"}
+// ---- solver ----
+
+type Solver struct {
+	name  string
+	cmd   *exec.Cmd
+	in    *bufio.Writer
+	inc   io.WriteCloser
+	out   *bufio.Reader
+	Calls int
+	Time  time.Duration
+	Sat   int
+	Unsat int
+	Unk   int
+	Errs  int
+	log   io.Writer // optional SMT-LIB2 transcript
+	tmo   int       // per-query timeout ms
 }
 
-func notv(a value) value {
-	if ab, ok := a.(bool); ok {
-		return !ab
+// SolverArgv returns the command line for a named back end.
+func SolverArgv(name string, timeoutMs int) []string {
+	switch name {
+	case "z3":
+		return []string{"z3", "-in", fmt.Sprintf("-t:%d", timeoutMs)}
+	case "z3-new":
+		return []string{"z3-new", "-in", fmt.Sprintf("-t:%d", timeoutMs)}
+	default:
+		return []string{"cvc5", "--incremental", "--strings-exp", "--produce-models", fmt.Sprintf("--tlimit-per=%d", timeoutMs)}
 	}
-	return symv{'B', "(not " + a.(symv).term + ")"}
+}
+
+func NewSolver(name string, timeoutMs int, log io.Writer) *Solver {
+	argv := SolverArgv(name, timeoutMs)
+	cmd := exec.Command(argv[0], argv[1:]...)
+	in, _ := cmd.StdinPipe()
+	out, _ := cmd.StdoutPipe()
+	if err := cmd.Start(); err != nil {
+		panic(err)
+	}
+	s := &Solver{name: name, cmd: cmd, inc: in, in: bufio.NewWriterSize(in, 1<<16), out: bufio.NewReaderSize(out, 1<<16), log: log, tmo: timeoutMs}
+	s.Send("(set-option :produce-models true)")
+	s.Send("(set-logic ALL)")
+	return s
+}
+
+func (s *Solver) Close() {
+	s.in.Flush()
+	s.inc.Close()
+	s.cmd.Process.Kill()
+	s.cmd.Wait()
+}
+
+func (s *Solver) Send(l string) {
+	s.in.WriteString(l)
+	s.in.WriteByte('\n')
+	if s.log != nil {
+		io.WriteString(s.log, l+"\n")
+	}
+}
+
+func (s *Solver) readLine() string {
+	s.in.Flush()
+	line, err := s.out.ReadString('\n')
+	if err != nil {
+		return "(error \"solver died: " + err.Error() + "\")"
+	}
+	return strings.TrimSpace(line)
+}
+
+// CheckWith: sat / unsat / unknown for current context ∧ extra.
+func (s *Solver) CheckWith(extra ...string) string {
+	t0 := time.Now()
+	if len(extra) > 0 {
+		s.Send("(push 1)")
+		for _, a := range extra {
+			s.Send("(assert " + a + ")")
+		}
+	}
+	s.Send("(check-sat)")
+	r := s.readLine()
+	if len(extra) > 0 {
+		s.Send("(pop 1)")
+	}
+	s.Calls++
+	s.Time += time.Since(t0)
+	switch r {
+	case "sat":
+		s.Sat++
+	case "unsat":
+		s.Unsat++
+	case "unknown", "timeout":
+		r = "unknown"
+		s.Unk++
+	default:
+		s.Errs++
+		r = "error: " + r
+	}
+	return r
+}
+
+// ModelWith checks context ∧ extra and, when sat, returns the values of the
+// given terms (raw SMT-LIB value syntax).
+func (s *Solver) ModelWith(terms []string, extra ...string) (string, []string) {
+	t0 := time.Now()
+	s.Send("(push 1)")
+	for _, a := range extra {
+		s.Send("(assert " + a + ")")
+	}
+	s.Send("(check-sat)")
+	r := s.readLine()
+	s.Calls++
+	var vals []string
+	if r == "sat" {
+		s.Sat++
+		for _, t := range terms {
+			s.Send("(get-value (" + t + "))")
+			vals = append(vals, parseGetValue(s.readSexp()))
+		}
+	} else if r == "unsat" {
+		s.Unsat++
+	} else if r == "unknown" || r == "timeout" {
+		r = "unknown"
+		s.Unk++
+	} else {
+		s.Errs++
+		r = "error: " + r
+	}
+	s.Send("(pop 1)")
+	s.Time += time.Since(t0)
+	return r, vals
+}
+
+// readSexp reads one balanced s-expression (possibly spanning lines).
+func (s *Solver) readSexp() string {
+	var b strings.Builder
+	depth := 0
+	inStr := false
+	started := false
+	for {
+		line := s.readLine()
+		b.WriteString(line)
+		for i := 0; i < len(line); i++ {
+			c := line[i]
+			if inStr {
+				if c == '"' {
+					inStr = false
+				}
+				continue
+			}
+			switch c {
+			case '"':
+				inStr = true
+			case '(':
+				depth++
+				started = true
+			case ')':
+				depth--
+			}
+		}
+		if started && depth <= 0 && !inStr {
+			return b.String()
+		}
+		if !started && line != "" {
+			return b.String()
+		}
+		b.WriteByte('\n')
+	}
+}
+
+// parseGetValue extracts V from "((term V))".
+func parseGetValue(s string) string {
+	s = strings.TrimSpace(s)
+	if !strings.HasPrefix(s, "((") {
+		return s
+	}
+	s = s[2 : len(s)-2]
+	// skip the echoed term: it is balanced; find its end.
+	i := 0
+	depth := 0
+	inStr := false
+	for ; i < len(s); i++ {
+		c := s[i]
+		if inStr {
+			if c == '"' {
+				inStr = false
+			}
+			continue
+		}
+		if c == '"' {
+			inStr = true
+		} else if c == '(' {
+			depth++
+		} else if c == ')' {
+			depth--
+		} else if c == ' ' && depth == 0 {
+			break
+		}
+	}
+	return strings.TrimSpace(s[i:])
+}
+
+// DecodeSMTString turns an SMT-LIB string literal into a Go string.
+func DecodeSMTString(lit string) string {
+	lit = strings.TrimSpace(lit)
+	if len(lit) < 2 || lit[0] != '"' {
+		return lit
+	}
+	body := lit[1 : len(lit)-1]
+	var b strings.Builder
+	for i := 0; i < len(body); i++ {
+		c := body[i]
+		if c == '"' && i+1 < len(body) && body[i+1] == '"' {
+			b.WriteByte('"')
+			i++
+			continue
+		}
+		if c == '\\' && i+1 < len(body) && body[i+1] == 'u' {
+			// \u{X..} or \uXXXX
+			if i+2 < len(body) && body[i+2] == '{' {
+				j := strings.IndexByte(body[i:], '}')
+				if j > 0 {
+					n, err := strconv.ParseInt(body[i+3:i+j], 16, 32)
+					if err == nil {
+						b.WriteRune(rune(n))
+						i += j
+						continue
+					}
+				}
+			} else if i+5 < len(body) {
+				n, err := strconv.ParseInt(body[i+2:i+6], 16, 32)
+				if err == nil {
+					b.WriteRune(rune(n))
+					i += 5
+					continue
+				}
+			}
+		}
+		b.WriteByte(c)
+	}
+	return b.String()
+}
+
+// DecodeSMTInt parses "5" or "(- 5)".
+func DecodeSMTInt(lit string) (int64, bool) {
+	lit = strings.TrimSpace(lit)
+	neg := false
+	if strings.HasPrefix(lit, "(-") {
+		neg = true
+		lit = strings.TrimSpace(lit[2 : len(lit)-1])
+	}
+	if neg && lit == "9223372036854775808" {
+		return -9223372036854775808, true
+	}
+	n, err := strconv.ParseInt(lit, 10, 64)
+	if err != nil {
+		return 0, false
+	}
+	if neg {
+		n = -n
+	}
+	return n, true
 }
